@@ -182,8 +182,8 @@ def main():
         "version": 1,
         "setup_cmd": "./check --setup",
         "hooks": {
-            "guard": "cargo feature verif-hooks (crate credx)",
-            "enable": "the harness crate /verif/harness depends on credx by path; hooks, where present, are enabled with features=[\"verif-hooks\"]",
+            "guard": "none needed: no hook or instrumentation was added to /repo (planned hooks H1-H3 of DESIGN §5.2 turned out to be unnecessary: the recomputed challenge is read from the error text, randomness wiring is recovered from outputs, proof parameters are not overridden)",
+            "enable": "nothing to enable: the harness crate /verif/harness depends on credx by path with default features and uses only its public API, serde and catch_unwind",
             "baseline_off_cmd": "cd /repo && cargo test --workspace --no-fail-fast --offline",
             "source_commits": HOOK_COMMITS,
             "add_only": True,
